@@ -73,12 +73,13 @@ package cstate
 
 // ---------------------------------------------------------------- C12: the next set is rotated AFTER the change set was applied
 //@ func updateState(logger log.Logger, state LatestBlockState, blockID types.BlockID, header *types.Header, validatorUpdates []*types.Validator) (r LatestBlockState, err error)
-//@   for C12
+//@   for C12 C02 C01
 //@   requires header != nil
 //@   modifies *
 //@   opt assumecallreqs
 //@   atcall ValidatorSet.IncrementProposerPriority requires [rotateAfterChangeSet] times == 1 && (len(validatorUpdates) > 0 ==> lastHeightValsChanged == toUint64(old(header.Height) + 2))
 //@   atcall ValidatorSet.UpdateWithChangeSet requires [changeSetOnTheCopy] vs == nValSet && vs != state.NextValidators
+//@   ensures [setsShiftByOneHeight] err == nil ==> r.NextValidators == nValSet && r.Validators != nil && r.Validators != state.NextValidators && r.Validators.Proposer == state.NextValidators.Proposer && len(r.Validators.Validators) == len(state.NextValidators.Validators) && r.LastValidators != nil && r.LastValidators != state.Validators && r.LastValidators.Proposer == state.Validators.Proposer && len(r.LastValidators.Validators) == len(state.Validators.Validators)
 
 // ---------------------------------------------------------------- C14: pruning keeps what kept states need
 // PruneState deletes the state records of [from, to) and the validator-set records only they
